@@ -46,6 +46,11 @@ pub fn world(seed: u64, size: usize) -> World {
         rules.push(format!("/track{}*id=^$image,tag={}", i, t));
         rules.push(format!("@@/allow{}/*/ok.js$script", i));
         rules.push(format!("||w{}*.cdn.example^", i));
+        // twins: one pattern text, different anchors and types (a compiled regex belongs to one of them only)
+        rules.push(format!("/twin{}/*/b.gif|$image", i));
+        rules.push(format!("/twin{}/*/b.gif$script", i));
+        rules.push(format!("|https://tw{}.example/*/c.js$script", i));
+        rules.push(format!("https://tw{}.example/*/c.js$xhr", i));
     }
     rules.extend(gen::cluster(&mut r, &gen::ALL_ON));
     rules.extend(gen::cluster(&mut r, &gen::ALL_ON));
@@ -72,7 +77,13 @@ pub fn world(seed: u64, size: usize) -> World {
         queries.push(Q::Net { url: format!("https://ads{}.example/x/banner/", i), src: src.clone(), ty: types[i % types.len()].into() });
         queries.push(Q::Net { url: format!("https://t.example/track{}?a&id=", i), src: src.clone(), ty: "image".into() });
         queries.push(Q::Net { url: format!("https://t.example/allow{}/z/ok.js", i), src: src.clone(), ty: "script".into() });
-        queries.push(Q::Net { url: format!("https://w{}zz.cdn.example/q", i), src, ty: "xhr".into() });
+        queries.push(Q::Net { url: format!("https://w{}zz.cdn.example/q", i), src: src.clone(), ty: "xhr".into() });
+        queries.push(Q::Net { url: format!("https://x.example/twin{}/q/b.gif", i), src: src.clone(), ty: "image".into() });
+        queries.push(Q::Net { url: format!("https://x.example/twin{}/q/b.gif?more", i), src: src.clone(), ty: "script".into() });
+        queries.push(Q::Net { url: format!("https://x.example/twin{}/q/b.gif?more", i), src: src.clone(), ty: "image".into() });
+        queries.push(Q::Net { url: format!("https://tw{}.example/p/c.js", i), src: src.clone(), ty: "script".into() });
+        queries.push(Q::Net { url: format!("https://x.example/r?u=https://tw{}.example/p/c.js", i), src: src.clone(), ty: "xhr".into() });
+        queries.push(Q::Net { url: format!("https://x.example/r?u=https://tw{}.example/p/c.js", i), src, ty: "script".into() });
     }
     for _ in 0..size {
         let (u, s, t) = gen::cluster_url(&mut r, &rules);
